@@ -797,6 +797,99 @@ def rule_objsize(chk, prog, tier):
     r.exhaustive = False
 
 
+def rule_released_arguments(chk, prog, tier, rid='C19.s'):
+    r = chk.rule(rid, 'a pointer handed to a function that releases it (the function passes that parameter, never reassigned, to free) is not used by the caller afterwards: no read of freed memory - in particular no diagnostic '
+                 'that prints a spelling the callee has already given back, whose text would be whatever the allocator left there', floor=20)
+    import cfg
+    from facts import walk as _walk, unwrap_all as _ua, children as _ch
+    nr, graphs = cfg.cfgs(prog)
+    def assigns(n, vid):
+        """does the statement write the variable (assignment to it, or its address taken: an out-parameter)"""
+        for b in _walk(n):
+            if b.get('kind') == 'BinaryOperator' and b.get('opcode') == '=':
+                t = _ua(_ch(b)[0])
+                if t.get('kind') == 'DeclRefExpr' and t['referencedDecl']['id'] == vid: return True
+            if b.get('kind') == 'UnaryOperator' and b.get('opcode') == '&':
+                t = _ua(_ch(b)[0])
+                if t.get('kind') == 'DeclRefExpr' and t['referencedDecl']['id'] == vid: return True
+        return False
+    releases = {'free': {0}}
+    for fn in prog.all_funcs():
+        ps = [c for c in fn.get('inner', []) if c.get('kind') == 'ParmVarDecl']
+        ids = {p_['id']: i for i, p_ in enumerate(ps)}
+        for c in _walk(fn):
+            if c.get('kind') == 'CallExpr' and cfg.callee_name(c) == 'free':
+                a = _ua(_ch(c)[1])
+                if a.get('kind') == 'DeclRefExpr' and a['referencedDecl']['id'] in ids and not assigns(fn, a['referencedDecl']['id']):
+                    releases.setdefault(fn['name'], set()).add(ids[a['referencedDecl']['id']])
+    if not {'delexpr', 'delscope', 'delfunc'} <= set(releases):
+        raise AnalysisBroken('releasing functions not recognised: %s' % sorted(releases))
+    nsites = 0
+    for fn in prog.all_funcs():
+        g = graphs[fn['id']]
+        for node in g.nodes:
+            if node.ast is None: continue
+            for c in _walk(node.ast):
+                if c.get('kind') != 'CallExpr' or cfg.callee_name(c) not in releases: continue
+                cn = cfg.callee_name(c); args = _ch(c)[1:]
+                for k in sorted(releases[cn]):
+                    if k >= len(args): continue
+                    a = _ua(args[k])
+                    if a.get('kind') != 'DeclRefExpr' or a['referencedDecl'].get('kind') not in ('VarDecl', 'ParmVarDecl'): continue
+                    vid = a['referencedDecl']['id']; nsites += 1
+                    if assigns(node.ast, vid):           # x = release(x)
+                        r.passed('released:%s:%s(%s)@%s' % (fn['name'], cn, a['referencedDecl']['name'], c.get('line') or node.line), '%s:%s' % (fn['_file'], node.line)); continue
+                    seen = set(); work = [m for m, _ in node.succ]; use = None
+                    while work and use is None:
+                        x = work.pop()
+                        if x.id in seen: continue
+                        seen.add(x.id)
+                        if x.ast is not None:
+                            if assigns(x.ast, vid): continue
+                            u = next((b for b in _walk(x.ast) if b.get('kind') == 'DeclRefExpr' and b['referencedDecl']['id'] == vid), None)
+                            if u is not None: use = (u.get('line') or x.line); break
+                        work.extend(m for m, _ in x.succ)
+                    r.instance(use is None, 'released:%s:%s(%s)' % (fn['name'], cn, a['referencedDecl']['name']), '%s:%s' % (fn['_file'], c.get('line') or node.line),
+                               '%s() passes `%s` to %s(), which frees it, and reads it again at line %s' % (fn['name'], a['referencedDecl']['name'], cn, use))
+    r.samples.append('releasing functions: %s; %d call sites' % (', '.join('%s(arg %s)' % (n, sorted(k)) for n, k in sorted(releases.items())), nsites))
+    r.exhaustive = True
+
+
+def rule_token_spellings(chk, prog, tier, rid='C19.t'):
+    r = chk.rule(rid, 'the spelling of a token the parser receives (tok.lit, the value of expect()) may be the very string a macro\'s replacement list holds - expansion copies tokens, not their spellings - so the parser never frees it: '
+                 'the next expansion of the macro would read (and hand on) freed memory', floor=3)
+    import cfg
+    from facts import walk as _walk, unwrap_all as _ua, children as _ch
+    def from_token(e):
+        e = _ua(e)
+        if e.get('kind') == 'CallExpr' and cfg.callee_name(e) == 'expect': return 'expect()'
+        if e.get('kind') == 'MemberExpr' and e.get('name') == 'lit':
+            b = _ua(_ch(e)[0])
+            if b.get('kind') == 'DeclRefExpr' and b['referencedDecl'].get('name') == 'tok': return 'tok.lit'
+        return None
+    nfree = 0; ntok = 0
+    for fn in prog.all_funcs():
+        if fn['_file'] in ('pp.c', 'scan.c'): continue          # below the expansion: tokens come from the scanner, freshly allocated
+        origins = {}
+        for b in _walk(fn):
+            if b.get('kind') == 'BinaryOperator' and b.get('opcode') == '=':
+                t = _ua(_ch(b)[0]); o = from_token(_ch(b)[1])
+                if t.get('kind') == 'DeclRefExpr' and o: origins.setdefault(t['referencedDecl']['id'], (o, b.get('line'))); ntok += 1
+            if b.get('kind') == 'VarDecl' and b.get('inner') and from_token(b['inner'][-1]): origins.setdefault(b['id'], (from_token(b['inner'][-1]), b.get('line'))); ntok += 1
+        for c in _walk(fn):
+            if c.get('kind') != 'CallExpr' or cfg.callee_name(c) not in ('free', 'realloc', 'xreallocarray'): continue
+            a = _ua(_ch(c)[1]); nfree += 1
+            direct = from_token(a)
+            vid = a['referencedDecl']['id'] if a.get('kind') == 'DeclRefExpr' else None
+            bad = direct or (origins.get(vid, (None,))[0])
+            r.instance(not bad, 'token-spelling:%s:free(%s)' % (fn['name'], a.get('name') or (a.get('referencedDecl') or {}).get('name') or a.get('kind')), '%s:%s' % (fn['_file'], c.get('line') or fn.get('line')),
+                       '%s() frees `%s`, which holds the spelling of a token (%s): if the token came out of a macro expansion the macro\'s replacement list still points to it' % (fn['name'], (a.get('referencedDecl') or {}).get('name'), bad))
+    if ntok < 10:
+        raise AnalysisBroken('only %d variables found that receive a token spelling' % ntok)
+    r.samples.append('%d variables receive a token spelling, %d release sites above the preprocessor inspected' % (ntok, nfree))
+    r.exhaustive = True
+
+
 def run(chk, tier):
     progs = facts.programs()
     prog = progs['cproc-qbe']
@@ -815,6 +908,8 @@ def run(chk, tier):
     chk.guard('C19.l', lambda: rule_pp_uaf(chk, prog, tier))
     chk.guard('C19.m', lambda: rule_arrayadd(chk, prog, tier))
     chk.guard('C19.n', lambda: rule_objsize(chk, prog, tier))
+    chk.guard('C19.s', lambda: rule_released_arguments(chk, prog, tier))
+    chk.guard('C19.t', lambda: rule_token_spellings(chk, prog, tier))
     from props import c14, c04
     chk.guard('C14.a', lambda: c14.rule_escapes(chk, prog, tier))       # the scanner invariant decodechar's assertions rely on
     chk.guard('C04.c', lambda: c04.rule_traps(chk, prog, tier))         # no trapping host arithmetic in the folder
